@@ -3,6 +3,8 @@
 #include "defs.h"
 /* ghosts: ghost segment / list position / row id / lusup index / tempv index; pre-state copies; BLAS and allocator call records */
 int_t g_s, g_q, g_r, g_p, g_t; @T@ g_dense0[CAP], g_lu0[LUC]; struct blas_rec g_blas; int g_alloc_calls, g_argbad;
+/* per-segment blocks of the DEFINITION (bound to TRI_OFF.. by the requires clause [ghost_blocks]; keeps the stub assertions free of index arithmetic) */
+int_t g_isblas[CAP], g_tri[CAP], g_rect[CAP], g_segsz[CAP], g_rows[CAP], g_lda[CAP];
 /* inputs */
 int_t in_pnum, in_jcol, in_fpanelc, in_nseg, in_n, in_alloc_pos, in_alloc_fails, in_memerr;
 int_t in_segrep[CAP], in_repfnz[CAP]; @T@ in_dense[CAP], in_tempv[CAP];
@@ -36,8 +38,8 @@ int @p@trsv_(char *uplo, char *trans, char *diag, int *n, @T@ *A, int *lda, @T@ 
   __CPROVER_assert(0 <= xoff && xoff + *n <= (x_in_lusup ? in_Glu.nzlumax : CAP), "trsv: extent of x inside its array");
   if (!x_in_lusup) {   /* a sup-col update inside the segment loop: must be the block some outside segment is defined on */
     __CPROVER_assert(x == in_tempv, "trsv(segment): x = tempv");
-    __CPROVER_assert(EX(qa, CAP, BLASSEG(qa) && aoff == TRI_OFF(qa) && *n == SEGSZE(qa) && *lda == NSUPR(KREP(qa))), "trsv(segment): A = diagonal block rows/columns kfnz..krep of an updating supernode");
-    if (BLASSEG(g_s) && aoff == TRI_OFF(g_s) && *n == SEGSZE(g_s) && *lda == NSUPR(KREP(g_s))) g_blas.seg_trsv++;
+    __CPROVER_assert(EX(qa, CAP, g_isblas[qa] && aoff == g_tri[qa] && *n == g_segsz[qa] && *lda == g_lda[qa]), "trsv(segment): A = diagonal block rows/columns kfnz..krep of an updating supernode");
+    if (g_isblas[g_s] && aoff == g_tri[g_s] && *n == g_segsz[g_s] && *lda == g_lda[g_s]) g_blas.seg_trsv++;
   }
   g_blas.trsv_aoff = aoff; g_blas.trsv_xoff = xoff; g_blas.trsv_n = *n; g_blas.trsv_lda = *lda; g_blas.last_x_in_lusup = x_in_lusup;
 #define HAVOC_X(k) if ((k) < *n) x[k] = nondet_@T@();
@@ -58,8 +60,8 @@ int @p@gemv_(char *trans, int *m, int *n, @T@ *alpha, @T@ *A, int *lda, @T@ *x, 
   if (!x_in_lusup) {
     __CPROVER_assert(*alpha == 1.0 && *beta == 0.0, "gemv(segment): alpha = 1, beta = 0 (tempv1 := A*x)");
     __CPROVER_assert(x == in_tempv && y == in_tempv + *n, "gemv(segment): x = tempv[0..segsze), y = tempv + segsze");
-    __CPROVER_assert(EX(qb, CAP, BLASSEG(qb) && aoff == RECT_OFF(qb) && *n == SEGSZE(qb) && *m == RECT_ROWS(qb) && *lda == NSUPR(KREP(qb))), "gemv(segment): A = rows below krep, columns kfnz..krep of an updating supernode");
-    if (BLASSEG(g_s) && aoff == RECT_OFF(g_s) && *n == SEGSZE(g_s) && *m == RECT_ROWS(g_s) && *lda == NSUPR(KREP(g_s))) g_blas.seg_gemv++;
+    __CPROVER_assert(EX(qb, CAP, g_isblas[qb] && aoff == g_rect[qb] && *n == g_segsz[qb] && *m == g_rows[qb] && *lda == g_lda[qb]), "gemv(segment): A = rows below krep, columns kfnz..krep of an updating supernode");
+    if (g_isblas[g_s] && aoff == g_rect[g_s] && *n == g_segsz[g_s] && *m == g_rows[g_s] && *lda == g_lda[g_s]) g_blas.seg_gemv++;
   } else {
     __CPROVER_assert(*alpha == -1.0 && *beta == 1.0, "gemv(own supernode): alpha = -1, beta = 1 (y := y - A*x)");
   }
